@@ -129,7 +129,7 @@ func (e *Exec) callFn(fn *ssa.Function, args []Value, bind []Value) (Value, *GoP
 // finishes: its inputs are replayed natively under a watchdog (a run that does not end is reported
 // as a termination violation; one that ends leaves the bound failure as it is: inconclusive).
 func (e *Exec) boundCandidate(msg string) {
-	if e.boundReported || e.env != nil {
+	if e.boundReported || (e.env != nil && len(e.env.gs) > 1) {
 		return
 	}
 	e.boundReported = true
